@@ -28,6 +28,8 @@ pub struct Hist<'a> {
     pub finish_panic: Option<String>,
     pub sched: Option<&'a SchedReport>,
     pub frozen: bool,
+    /// sequential mode: the only thread spun on loads forever
+    pub seq_stuck: bool,
 }
 
 #[derive(Default)]
@@ -215,6 +217,9 @@ pub fn check(h: &Hist) -> (Vec<Violation>, Stats) {
         if ov > 0 {
             v(&mut out, "OVERLAP", P_OVERLAP, format!("the wrapped iterator's next() was entered {} time(s) while another thread was inside it", ov));
         }
+    }
+    if h.seq_stuck {
+        v(&mut out, "STUCK", P_STUCK, format!("a call on the only running thread never returns: more than {} consecutive loads with nobody else to change what they read", crate::sched::SEQ_STUCK_LOADS));
     }
     if let Some(s) = h.sched {
         if s.hb.unordered > 0 {
